@@ -74,18 +74,23 @@ def run(ctx, cases_override=None):
     th = ctx.thorough
     # ---- MC: Impl (IsMatchBlock & co) = Doc for every configuration within the bounds x corpus x command x state
     mcs = []
-    if th:
-        # every block with <=1 match condition and <=1 ignore condition; every match-only block with <=3 conditions
-        mcs.append(ctx.tlc("DispatchC09", "c09_mc.cfg", files={"c09_mc.cfg": cfg(1, 1, 1, 1, 1, True, MC_INV)},
-                           timeout=7200, allow_violation=True, workers=W))
-        mcs.append(ctx.tlc("DispatchC09", "c09_mc2.cfg", files={"c09_mc2.cfg": cfg(1, 1, 0, 3, 0, False, "Inv_C09")},
-                           timeout=7200, allow_violation=True, workers=W))
-    else:
-        # every match-only block with <=2 conditions; every block with one ignore condition and no / an empty match
-        mcs.append(ctx.tlc("DispatchC09", "c09_mc.cfg", files={"c09_mc.cfg": cfg(1, 1, 0, 2, 0, True, MC_INV)},
-                           timeout=3000, allow_violation=True, workers=W))
-        mcs.append(ctx.tlc("DispatchC09", "c09_mc2.cfg", files={"c09_mc2.cfg": cfg(1, 1, 1, 0, 1, True, MC_INV)},
-                           timeout=3000, allow_violation=True, workers=W))
+    if cases_override is None:   # a replay only re-executes the stored case
+        mcs = []
+        if th:
+            # every block with <=1 match condition and <=1 ignore condition; every match-only block with <=3 conditions
+            mcs.append(ctx.tlc("DispatchC09", "c09_mc.cfg", files={"c09_mc.cfg": cfg(1, 1, 1, 1, 1, True, MC_INV)},
+                               timeout=7200, allow_violation=True, workers=W))
+            mcs.append(ctx.tlc("DispatchC09", "c09_mc2.cfg", files={"c09_mc2.cfg": cfg(1, 1, 0, 3, 0, False, "Inv_C09")},
+                               timeout=7200, allow_violation=True, workers=W))
+            # every block with <=2 match conditions and one ignore condition (vocabulary without top-level alternations)
+            mcs.append(ctx.tlc("DispatchC09", "c09_mc3.cfg", files={"c09_mc3.cfg": cfg(1, 1, 1, 2, 1, False, "Inv_C09")},
+                               timeout=7200, allow_violation=True, workers=W))
+        else:
+            # every match-only block with <=2 conditions; every block with one ignore condition and no / an empty match
+            mcs.append(ctx.tlc("DispatchC09", "c09_mc.cfg", files={"c09_mc.cfg": cfg(1, 1, 0, 2, 0, True, MC_INV)},
+                               timeout=3000, allow_violation=True, workers=W))
+            mcs.append(ctx.tlc("DispatchC09", "c09_mc2.cfg", files={"c09_mc2.cfg": cfg(1, 1, 1, 0, 1, True, MC_INV)},
+                               timeout=3000, allow_violation=True, workers=W))
     leads = [m["invariant_violated"] for m in mcs if m["invariant_violated"]]
     # ---- GEN
     head = None
@@ -105,7 +110,7 @@ def run(ctx, cases_override=None):
         if th:
             cases += gen("c09_gen0.cfg", cfg(1, 1, 1, 1, 1, True, "EmitCase"))             # every (<=1 cond, <=1 cond) block
             cases += gen("c09_gen1.cfg", cfg(1, 1, 0, 2, 0, True, "EmitCase"))             # every match-only pair
-            sim = gen("c09_gen3.cfg", cfg(3, 2, 2, 3, 3, True, "EmitCase"), simulate=300, depth=80)
+            sim = gen("c09_gen3.cfg", cfg(3, 2, 2, 3, 3, True, "EmitCase"), simulate=600, depth=80)
             for c in sim:
                 c["full"] = True          # simulated multi-block configurations: all 12 (command, state) points
             cases += sim
